@@ -3,6 +3,7 @@ import UscxmlVerif.Spec.Legal
 import UscxmlVerif.Spec.Nesting
 import UscxmlVerif.Model.Tables
 import UscxmlVerif.Model.Validate
+import UscxmlVerif.Properties.C05
 namespace Driver
 open UscxmlVerif
 
@@ -32,6 +33,20 @@ def tables (line : String) : String :=
   | _ :: sx :: _ =>
     match parseSExp sx >>= parseDoc with
     | some (d, late) => Model.Tables.dump (flatten d late)
+    | none => "bad-chart"
+  | _ => "bad-op"
+
+/-- request: a chart s-expression (as for `tables`); response: whether the flat chart meets the hypotheses of the C05
+theorems (`Coherent`) and how many of its transitions are plain (`plainTrans`) -/
+def coherent (line : String) : String :=
+  match line.splitOn "\t" with
+  | _ :: sx :: _ =>
+    match parseSExp sx >>= parseDoc with
+    | some (d, late) =>
+      let c := flatten d late
+      let n := c.trans.size
+      let k := ((List.range n).filter (fun i => Properties.C05.plainTrans c (Model.Tables.tr c i))).length
+      s!"coh={if Proofs.Struct.Coherent c then 1 else 0} plain={k}/{n}"
     | none => "bad-chart"
   | _ => "bad-op"
 
